@@ -13,6 +13,9 @@ import re
 tspecials = re.compile(r'[ \(\)<>@,;:\\"/\[\]\?=]')
 q_separator = re.compile(r'; *q *=')
 
+# control characters (all but HTAB) must never be written inside a header line
+_UNSAFE_IN_FIELD_LINE = {c: ' ' for c in (*range(9), *range(10, 32), 127)}
+
 
 def _formatparam(param, value=None, quote=1):
     """
@@ -227,7 +230,12 @@ class Headers(CaseInsensitiveDict):
         return 'Headers(%s)' % repr(list(self.items()))
 
     def __str__(self):
-        headers = [f'{k}: {v}\r\n' for k, v in self.items()]
+        # Whatever the source of a name or value (the application, or a
+        # request header that is echoed): a CR, LF, NUL or other control
+        # character in it must not reach the wire, where it would end the
+        # header line or the whole header section. Each one is written as
+        # a space (RFC 9110, 5.5).
+        headers = [f'{k}: {v}'.translate(_UNSAFE_IN_FIELD_LINE) + '\r\n' for k, v in self.items()]
         return ''.join(headers) + '\r\n'
 
     def items(self):
